@@ -489,4 +489,33 @@ theorem driver_invalid_listed {n : Nat} {rest rest' : List String} {archs : List
   classOf_listed (invalid_has_flag _ w dq0 r (driver_cfg_wf h hl) hr hinv)
     (resolve_flags_known _ w dq0 r hr)
 
+/-! ## the hypotheses of `resolve_sound_partial` cannot be dropped -/
+
+/-- the model resolves `w` successfully, the set is invalid, and the ghost flags are exactly `flags` -/
+def invalidWith (ps : List Pkg) (w : List String) (flags : List String) : Bool :=
+  match resolve (cfgOf ps) (w.map String.toList) [] with
+  | .ok r => !validB (cfgOf ps).u (w.map String.toList) r.install && r.flags == flags
+  | _ => false
+
+/-- each of F02a–F02d ALONE makes a resolution invalid (no other flag fires in these runs), so none of them
+can be removed from the hypothesis `r.flags = []`.  (F02e never fires alone on a successful run: the
+skipped package and its namesake ancestor are both emitted, which raises F02a as well — `F02e_with_a`.) -/
+theorem F02a_alone : invalidWith uA ["a", "b"] ["F02a"] = true := by
+  set_option maxRecDepth 100000 in decide
+theorem F02b_alone : invalidWith uB ["top"] ["F02b"] = true := by
+  set_option maxRecDepth 100000 in decide
+theorem F02c_alone : invalidWith uC ["top"] ["F02c"] = true := by
+  set_option maxRecDepth 100000 in decide
+theorem F02d_alone : invalidWith uD ["a"] ["F02d"] = true := by
+  set_option maxRecDepth 100000 in decide
+theorem F02e_with_a : invalidWith uE ["d"] ["F02e", "F02a"] = true := by
+  set_option maxRecDepth 100000 in decide
+
+/-- `UniverseWF` is needed: in `uE` with the two versions of `d` sharing one id (which Go's pointer identity
+rules out) the cycle guard and the de-duplication ghost test both see "the same package", no flag fires,
+and the set `{d-1, g}` is invalid (`d-1 → e`) -/
+def uE_sharedId := [mk 0 "d" "2" ["g"] [] [], mk 1 "g" "1" ["virt"] [] [], mk 0 "d" "1" ["e"] ["virt=1"] [], mk 3 "e" "1" [] [] []]
+theorem UniverseWF_needed : ¬ UniverseWF (cfgOf uE_sharedId) ∧ invalidWith uE_sharedId ["d"] [] = true := by
+  set_option maxRecDepth 100000 in decide
+
 end Apko.C02
